@@ -65,7 +65,7 @@ type Monitor struct {
 
 // NewMonitor returns a new monitor given the stats
 func NewMonitor(stats *Stats) *Monitor {
-	return &Monitor{
+	return verifNewMonitor(&Monitor{
 		conns:        make(map[string]net.Conn),
 		stats:        stats,
 		buckets:      newBucketStats(),
@@ -74,7 +74,7 @@ func NewMonitor(stats *Stats) *Monitor {
 		done:         make(chan string),
 		listenerLock: new(sync.Mutex),
 		sinkPortChan: make(chan uint16, 1),
-	}
+	})
 }
 
 // InsertBucket creates a bucket at the given index that will use the rules
